@@ -24,7 +24,7 @@ MIN_NONTRIVIAL = {"quick": 200, "thorough": 2000}
 REQUIRED_FUNCTIONS = ["listener.py:BlackbirdListener.exitInclude", "listener.py:BlackbirdListener.exitStatement", "__init__.py:load"]
 FUNCTIONS = REQUIRED_FUNCTIONS + ["program.py:BlackbirdProgram.__call__"]
 REQUIRED_TAGS = ["nested>=2", "repeat-call", "template-call", "cwd:main-dir", "cwd:parent", "cwd:root", "cwd:unrelated", "path:relative",
-                 "path:absolute", "include:subdir", "include:repeated-line", "include:abs+rel", "neg:arity", "neg:keywords", "include:symlink-dotdot", "call-in-loop", "template-call-in-loop", "include:gate-named-like-another-subroutine", "equal-but-different-values", "keyword-order-shuffled", "same-values-other-keywords"]
+                 "path:absolute", "include:subdir", "include:repeated-line", "include:abs+rel", "neg:arity", "neg:keywords", "include:symlink-dotdot", "call-in-loop", "template-call-in-loop", "include:gate-named-like-another-subroutine", "equal-but-different-values", "keyword-order-shuffled", "same-values-other-keywords", "call-transitively-included"]
 ASSUMPTIONS = ["reference inlining rule: DESIGN Appendix A rule 11 (sorted(sub.modes) -> call modes, parameters bound from keywords)",
                "files are ASCII; sub-programs contain no measured registers (the statement renames modes only)"]
 
@@ -99,6 +99,7 @@ def build(rng, g, symbolic_args=False, regref_args=False):
 
     main_dir = rng.choice(["", "", "proj", "a/b"])
     subs = []  # (name, relpath from main dir, text path, nmodes, params, depth)
+    deep = []  # programs included by an included file (visible in the main script as well)
     nsubs = rng.choice([1, 1, 2, 2, 3])
     for s in range(nsubs):
         depth = rng.choice([1, 1, 1, 2, 3, 4])
@@ -132,6 +133,8 @@ def build(rng, g, symbolic_args=False, regref_args=False):
             except (OOD, refsem.IllFormed, refsem.RefSyntax) as e:
                 raise RuntimeError("sub-program not valid: %s" % e)
             prev = (name, path, len(ref.modes), ref.param_names())
+            if level > 1 and len(ref.modes) > 0:
+                deep.append((name, path, len(ref.modes), ref.param_names(), level))
         name, path, nmodes, params = prev
         if nmodes == 0:
             raise RuntimeError("sub-program without modes")
@@ -174,7 +177,12 @@ def build(rng, g, symbolic_args=False, regref_args=False):
     body = []
     calls = []
     prev_call = {}
-    for (name, path, nmodes, params, depth) in subs:
+    called = list(subs)
+    if deep and rng.random() < 0.4:
+        # the main script applies a program that only an included file includes
+        called.append(rng.choice(deep))
+        tags.add("call-transitively-included")
+    for (name, path, nmodes, params, depth) in called:
         ncalls = rng.choice([1, 1, 2, 2, 3, 4])
         if ncalls >= 2:
             tags.add("repeat-call")
